@@ -288,6 +288,11 @@ func buildMethodBodyBSInfo(methodBody IMethodBodyContext, bsInfo bs_domain.Funct
 		blcStatement := blockContext.(*BlockContext).AllBlockStatement()
 		for _, statement := range blcStatement {
 			if reflect.TypeOf(statement.GetChild(0)).String() == "*parser.StatementContext" {
+				if isRuleSwitchStatement(statement.GetChild(0).(*StatementContext)) {
+					bsInfo.SwitchSize = bsInfo.SwitchSize + 1
+					continue
+				}
+
 				if len(statement.GetChild(0).(*StatementContext).GetChildren()) < 3 {
 					continue
 				}
@@ -298,6 +303,21 @@ func buildMethodBodyBSInfo(methodBody IMethodBodyContext, bsInfo bs_domain.Funct
 	}
 
 	return bsInfo
+}
+
+// isRuleSwitchStatement tells whether the statement is a switch statement written with
+// `case X ->` rules: the grammar parses it as a switch expression in statement position
+// (optionally followed by `;`), not as the classic `switch` alternative.
+func isRuleSwitchStatement(statementCtx *StatementContext) bool {
+	first := statementCtx.GetChild(0)
+	if _, ok := first.(*SwitchExpressionContext); ok {
+		return true
+	}
+	if expr, ok := first.(*ExpressionContext); ok && expr.GetChildCount() == 1 {
+		_, ok := expr.GetChild(0).(*SwitchExpressionContext)
+		return ok
+	}
+	return false
 }
 
 func countMethodIfSwitch(statement IBlockStatementContext, bsInfo *bs_domain.FunctionBSInfo) {
